@@ -10,6 +10,7 @@ CONSTANTS
   NLook = 1
   NextFirst = TRUE
   EmptyHeadGuard = FALSE
+  GuardBroad = FALSE
   NSync = 0
   SyncHoldsLock = TRUE
 VIEW kview
